@@ -477,6 +477,11 @@ func init() {
 				{"seq 1 50; printf 'tail' 1>&2", append(seqStrs(1, 50), "tail")},
 				{"head -c 100000 /dev/zero | tr '\\0' 'z'; echo", []string{strings.Repeat("z", 100000)}},
 				{"echo a; echo b 1>&2; sleep 0.05; echo c", nil},
+				// empty and whitespace-only lines are lines (seeded change C11-r4-2)
+				{"printf 'a\\n\\n\\nb\\n\\nc\\n'", []string{"a", "", "", "b", "", "c"}},
+				{"printf '\\n\\nx'", []string{"", "", "x"}},
+				{"echo; echo; echo end", []string{"", "", "end"}},
+				{"printf 'h\\n \\n\\t\\nt\\n'", []string{"h", " ", "\t", "t"}},
 			}
 			for i, rc := range reals {
 				if rc.w == nil {
